@@ -243,6 +243,9 @@ def observe(seed, tier):
                 m = re.search(r"(_cffFlow\w+)\(", regions.get(fl.name(), ""))
                 impl = regions.get(m.group(1), "") if m else ""
                 got = gen_common.parse_job_graph(impl, fl)
+                if got is None:
+                    count("modifier_job_graphs_unreadable")
+                    continue
                 want = {}
                 for ent in pred.rsplit("JOBS=", 1)[1].split(";"):
                     if ent:
